@@ -344,7 +344,7 @@ class Interp:
                 return c[name]
             if dk in ("Variant", "Struct"):
                 return Enum(e.get("did") or e["n"])
-            if dk and (dk.startswith("Const") or dk.startswith("AssocConst")):
+            if dk and (dk.startswith("Const") or dk.startswith("AssocConst") or dk.startswith("Static")):
                 v = self.dom.const(self, e)
                 if v is None:
                     raise Unrecognised("constant %s" % e["n"])
@@ -691,6 +691,10 @@ class Interp:
             if isinstance(r, ElemRef):
                 r.set(v)
                 return
+        if lhs.get("k") == "field":
+            base = self.ev(lhs["e"], env)
+            if hasattr(self.dom, "field_assign") and self.dom.field_assign(self, base, lhs["n"], v):
+                return
         raise Unrecognised("assignment to %s" % lhs.get("k"))
 
     def ev_assignop(self, e, env):
@@ -703,8 +707,8 @@ class Interp:
         cur = self.ev(lhs, env)
         r = self.ev(e["r"], env)
         if isinstance(cur, int) and isinstance(r, int) and not isinstance(cur, bool) and o in ("+", "-", "*", "|", "&", "^", "<<", ">>"):
-            v = {"+": cur + r, "-": cur - r, "*": cur * r, "|": cur | r, "&": cur & r, "^": cur ^ r,
-                 "<<": cur << r, ">>": cur >> r}[o]
+            v = {"+": lambda: cur + r, "-": lambda: cur - r, "*": lambda: cur * r, "|": lambda: cur | r,
+                 "&": lambda: cur & r, "^": lambda: cur ^ r, "<<": lambda: cur << r, ">>": lambda: cur >> r}[o]()
         else:
             v = self.dom.binop(self, o, cur, r)
             if v is None:
